@@ -247,6 +247,10 @@ func verifH_C14_methods() {
 	if conn != nil {
 		wire = len(conn.wlog)
 	}
+	if method == 2 || method == 3 {
+		// whatever the outcome, a request that returned holds no identifier slot
+		verifAssert(len(c.unorderedTxs.perPacketID) == 0, "C17: a subscribe/unsubscribe request that returned still occupies its identifier slot (refused and failed requests would exhaust the 512 slots)")
+	}
 	if err == nil {
 		verifReach("ok")
 		return
